@@ -11,12 +11,13 @@
            6 close() future (kind 2)   7 c poll   8 c drop future   9 c drop the T obtained
            11 try_unwrap   12 cancel op (its storage is released: same as 4)
            13 c  closer c's future is polled with a fresh waker from now on (moved to another task)
-     per step:  ok  open  res  wmask  smask
+     per step:  ok  open  res  wmask  wgen
        ok    1 = the step was possible
        open  1 = the descriptor is open
        res   poll: 0 Pending 1 Ready(Some) 2 Ready(None) 3 Ready(Ok(()));  try_unwrap: 1 = got it
        wmask bit c = closer c's future exists and its CURRENT waker was woken since its last poll
-       smask bit c = an EARLIER waker of it was woken since its last poll (a stale wake-up)
+       wgen  hex digit c = 1 + the generation (number of op 13 before it) of closer c's waker that was
+             woken since its last poll, 0 = none
      then, after dropping everything that is left:  open
    kind 3  [3; drv; (op)*]     accept: 1 poll future  2 drop future  3 client connects
                                4 driver turn  5 drop the accepted stream  6 drop the runtime
@@ -37,19 +38,25 @@ Definition fut_alive (p : cpc) : bool :=
   match p with CUnpolled | CCreated | CPending | CClosing | CClosed => true | _ => false end.
 
 (* bit c of [wmask]: closer c's future exists and the waker it is polled with NOW holds a
-   notification; bit c of [smask]: an earlier waker of it does (stale: nobody will act on it) *)
-Fixpoint mask_from (stale : bool) (i : nat) (ws : wst) (l : list closer) : N :=
+   notification; hex digit c of [wgen]: 1 + the generation of its waker that holds one (0 = none) *)
+Fixpoint mask_from (i : nat) (ws : wst) (l : list closer) : N :=
   match l with
   | [] => 0%N
   | x :: r =>
-    let mine := Nat.eqb (fst (wok ws)) i in
-    let cur := Nat.eqb (snd (wok ws)) (gen ws i) in
-    ((if fut_alive (pc x) && winner x && wwoken (base ws) && mine && (if stale then negb cur else cur)
-      then N.pow 2 (NN i) else 0) + mask_from stale (S i) ws r)%N
+    ((if fut_alive (pc x) && winner x && wwoken (base ws) && Nat.eqb (fst (wok ws)) i
+         && Nat.eqb (snd (wok ws)) (gen ws i)
+      then N.pow 2 (NN i) else 0) + mask_from (S i) ws r)%N
+  end.
+Fixpoint wgen_from (i : nat) (ws : wst) (l : list closer) : N :=
+  match l with
+  | [] => 0%N
+  | x :: r =>
+    ((if fut_alive (pc x) && winner x && wwoken (base ws) && Nat.eqb (fst (wok ws)) i
+      then NN (S (snd (wok ws))) * N.pow 16 (NN i) else 0) + wgen_from (S i) ws r)%N
   end.
 
-Definition wmask (ws : wst) : N := mask_from false 0 ws (closers (base ws)).
-Definition smask (ws : wst) : N := mask_from true 0 ws (closers (base ws)).
+Definition wmask (ws : wst) : N := mask_from 0 ws (closers (base ws)).
+Definition wgen (ws : wst) : N := wgen_from 0 ws (closers (base ws)).
 
 Definition is_open (s : st) : bool := negb (is_closed (fd s)).
 
@@ -92,7 +99,8 @@ Definition run_op (g : cfg) (rt : bool) (ws : wst) (op arg : N) : option (wst * 
   | 11%N =>
     option_map (fun ws' => (ws', b2N (negb (Nat.eqb (length (closers (base ws'))) (length (closers (base ws)))))))
                (wustep g ws (WU UTryUnwrap))
-  | 13%N => option_map (fun ws' => (ws', 0%N)) (wustep g ws (WSwitch c))
+  | 13%N => if Nat.leb 13 (gen ws c) then None
+            else option_map (fun ws' => (ws', 0%N)) (wustep g ws (WSwitch c))
   | _ => None
   end.
 
@@ -108,7 +116,7 @@ Fixpoint run_ops (g : cfg) (rt : bool) (ws : wst) (l : list N) : option (wst * l
     let s2 := if rt then settle_all g s1 else s1 in
     match run_ops g rt s2 r with
     | Some (sf, out) =>
-      Some (sf, b2N ok :: b2N (is_open (base s2)) :: res :: wmask s2 :: smask s2 :: out)
+      Some (sf, b2N ok :: b2N (is_open (base s2)) :: res :: wmask s2 :: wgen s2 :: out)
     | None => None
     end
   | _ => None
